@@ -748,4 +748,78 @@ example : InScope (denseLayer 4 { name := "d1", units := 6, actName := "relu" })
   refine ⟨Or.inl (by decide), ?_⟩
   rintro ⟨h, _⟩; revert h; decide
 
+/-! ## 8. the score the tuner maximises: `AutoQKHyperModel.adjusted_score` (`Model/Forgiving.lean`:
+    `scoreWith`, `selectMetric`; over ℝ the arithmetic is exact, the float32 evaluation `scoreF` is
+    tied to the real code by the driver's `score` stream). -/
+
+/-- the real-number score: `metric * (1 + delta)` -/
+noncomputable def score (metric d : ℝ) : ℝ := scoreWith (· * ·) (· + ·) 1 metric d
+
+/-- a trial of exactly the reference size keeps its metric -/
+theorem C20_score_reference (δp δn rate ref metric : ℝ) :
+    score metric (delta δp δn rate ref ref) = metric := by
+  rw [delta_self]; simp [score, scoreWith]
+
+/-- "score smaller models higher": with the same positive metric, the strictly smaller trial gets the
+    strictly larger score — every reference, every pair of sizes, every admissible parameter triple -/
+theorem C20_score_strictAnti (δp δn rate ref metric t1 t2 : ℝ) (hp : 0 < δp) (hn : 0 < δn) (hr : 1 < rate)
+    (h0 : 0 < ref) (hm : 0 < metric) (h1 : 0 < t1) (h12 : t1 < t2) :
+    score metric (delta δp δn rate ref t2) < score metric (delta δp δn rate ref t1) := by
+  have hd := delta_strictAntiOn hp hn hr h0 (Set.mem_Ioi.mpr h1) (Set.mem_Ioi.mpr (lt_trans h1 h12)) h12
+  simp only [score, scoreWith]
+  exact mul_lt_mul_of_pos_left (by linarith) hm
+
+/-- the bonus never reorders two trials of the SAME size: the better metric wins whenever the factor
+    `1 + delta` is positive (it is for every trial not larger than the reference) -/
+theorem C20_score_metric_monotone (d m1 m2 : ℝ) (hd : 0 < 1 + d) (h : m1 < m2) : score m1 d < score m2 d := by
+  simp only [score, scoreWith]
+  exact mul_lt_mul_of_pos_right h hd
+
+/-- a positive metric is raised below the reference size and lowered above it -/
+theorem C20_score_sign (δp δn rate ref metric trial : ℝ) (hp : 0 < δp) (hn : 0 < δn) (hr : 1 < rate)
+    (h0 : 0 < ref) (ht : 0 < trial) (hm : 0 < metric) :
+    (trial < ref → metric < score metric (delta δp δn rate ref trial)) ∧
+    (ref < trial → score metric (delta δp δn rate ref trial) < metric) := by
+  simp only [score, scoreWith]
+  constructor
+  · intro h; have := delta_pos_of_lt (δn := δn) hp hr ht h; nlinarith
+  · intro h; have := delta_neg_of_gt (δp := δp) hn hr h0 h; nlinarith
+
+/-- metric selection, stated outright: a callable is always used as given; `None`, "accuracy" and "acc"
+    pick the accuracy by the two static shapes; every other string is categorical accuracy -/
+theorem C20_score_metric_selection (m : MetricArg) (ytRank ypRank ytLast ypLast : Int) :
+    (m = .fn → selectMetric m ytRank ypRank ytLast ypLast = .custom) ∧
+    (m = .none ∨ m = .str "accuracy" ∨ m = .str "acc" →
+      selectMetric m ytRank ypRank ytLast ypLast =
+        if ypLast = 1 then .binary
+        else if ytRank < ypRank ∨ (ytLast = 1 ∧ 1 < ypLast) then .sparse else .categorical) ∧
+    (∀ s, m = .str s → s ≠ "" → s ≠ "accuracy" → s ≠ "acc" →
+      selectMetric m ytRank ypRank ytLast ypLast = .categorical) := by
+  refine ⟨?_, ?_, ?_⟩
+  · rintro rfl; rfl
+  · intro h
+    have key : selectMetric m ytRank ypRank ytLast ypLast =
+        (if (ypLast == 1) = true then MetricKind.binary
+         else if (decide (ytRank < ypRank) || (ytLast == 1 && decide (ypLast > 1))) = true then .sparse
+         else .categorical) := by
+      rcases h with rfl | rfl | rfl <;> simp [selectMetric]
+    rw [key]
+    by_cases h1 : ypLast = 1
+    · simp [h1]
+    · by_cases h2 : ytRank < ypRank <;> by_cases h3 : ytLast = 1 <;> by_cases h4 : 1 < ypLast <;>
+        simp [h1, h2, h3, h4]
+  · rintro s rfl h0 h1 h2
+    simp [selectMetric, h0, h1, h2]
+
+/-- the shape rule never reads the metric's value: one-column predictions are binary even with sparse labels -/
+example : selectMetric .none 1 2 1 1 = .binary ∧ selectMetric (.str "acc") 1 2 1 10 = .sparse ∧
+    selectMetric (.str "accuracy") 2 2 10 10 = .categorical ∧ selectMetric (.str "mse") 1 2 1 1 = .categorical ∧
+    selectMetric .fn 1 2 1 1 = .custom := by decide
+
+/-- hypotheses of `C20_score_strictAnti` are met; the float32 score of the driver at a concrete point:
+    metric ¾, delta ⅛ → 27/32 -/
+example : (0 : ℝ) < 8 ∧ (1 : ℝ) < 2 ∧ (0 : ℝ) < 3408 ∧ (0 : ℝ) < 0.75 ∧ (0 : ℝ) < 100 ∧ (100 : ℝ) < 200 := by
+  norm_num
+
+
 end QKV.Props.C20
